@@ -440,6 +440,14 @@ def main():
             if not proof["ok"]:
                 problems.append({"kind": "proof", "what": "Props/%s.v: rc=%d closed=%d/%d axioms=%s" % (
                     pid, proof["rc"], proof["closed"], proof["prints"], proof["axioms"]), "detail": proof["out"]})
+            elif tier == "thorough":
+                # independent re-check of the compiled theorems and everything they depend on
+                rc, out, dt = sh(["coqchk", "-silent", "-o", "-Q", ".", "RW", "RW.Props.%s" % pid], cwd=COQ, timeout=3000)
+                log["coqchk_s"] = round(dt, 1)
+                m = re.search(r"\* Axioms:\s*(.*?)\n\s*\n", out, flags=re.S)
+                log["coqchk_axioms"] = (m.group(1).strip() if m else "?")
+                if rc != 0 or log["coqchk_axioms"] != "<none>":
+                    problems.append({"kind": "proof", "what": "coqchk RW.Props.%s: rc=%d axioms=%s" % (pid, rc, log["coqchk_axioms"]), "detail": out[-2000:]})
         if os.path.exists(os.path.join(ROOT, "harness", "bin", "wh")) and os.path.exists(os.path.join(ROOT, "ocaml", "_build", "driver")):
             for st in P["streams"]:
                 r = run_stream(pid, st, tier, seed, work, log)
